@@ -226,7 +226,7 @@ func (s *Sess) readSteps(x string, steps []Step) string {
 			stt, _ := structOf(st.T)
 			x = "(" + fieldAcc(s.sortOf(st.T), stt, st.Field) + " " + x + ")"
 		case stArr:
-			x = "(select " + x + " " + st.Idx + ")"
+			x = s.arrSelect(st.T.Underlying().(*types.Array), x, st.Idx)
 		case stSeq:
 			es := s.sortOf(st.T.Underlying().(*types.Slice).Elem())
 			x = "(select " + s.seqArr(es, x) + " " + st.Idx + ")"
@@ -259,8 +259,12 @@ func (s *Sess) writeSteps(x string, steps []Step, v string) string {
 		}
 		return "(mk_" + sn + " " + strings.Join(fs, " ") + ")"
 	case stArr:
-		cur := "(select " + x + " " + st.Idx + ")"
-		return "(store " + x + " " + st.Idx + " " + s.writeSteps(cur, steps[1:], v) + ")"
+		at := st.T.Underlying().(*types.Array)
+		if smallArr(at) && len(steps) > 1 && !isAtom(x) {
+			x = s.name("av", s.sortOf(st.T), x)
+		}
+		cur := s.arrSelect(at, x, st.Idx)
+		return s.arrStore(at, x, st.Idx, s.writeSteps(cur, steps[1:], v))
 	case stSeq:
 		es := s.sortOf(st.T.Underlying().(*types.Slice).Elem())
 		arr := s.seqArr(es, x)
@@ -444,7 +448,7 @@ func (s *Sess) viewSeq(m *Mem, v *View) string {
 	base := s.load(m, v.Origin)
 	var arr string
 	if v.IsArray {
-		arr = base
+		arr = s.arrToSMT(types.Unalias(v.Origin.elemType()).Underlying().(*types.Array), base)
 	} else {
 		arr = s.seqArr(es, base)
 	}
